@@ -58,9 +58,14 @@ def main():
 
                         # minimisation is expensive: a shard minimises the first two violations it
                         # meets in full, later ones are passed on as found
+                        from vsim import known
+
+                        kf = known.load()
                         vs = []
                         for v in res["violations"][:3]:
-                            if nshrunk < 2:
+                            if all(known.match(kf, job["prop"], v["desc"], x) for x in v["violations"]):
+                                vs.append(v)  # a recorded finding: nothing to minimise
+                            elif nshrunk < 2:
                                 nshrunk += 1
                                 vs.append(shrink.minimize(mod, v, env))
                             else:
